@@ -768,8 +768,30 @@ impl ChannelConversionBuffer {
     }
 
     fn process_pixels(&mut self, encoded: &[u8], out: &mut [u8], f: ProcessPixelsFn) {
+        #[cfg(dds_verif)]
+        let verif_base = (encoded.as_ptr() as usize, out.as_ptr() as usize);
+        #[cfg(dds_verif)]
+        let verif_native = (
+            self.native_color.bytes_per_pixel() as usize,
+            (self.native_color.channels != self.target) as usize,
+        );
+        #[cfg(dds_verif)]
+        let verif_call = |encoded: &[u8], out: &[u8]| {
+            crate::verif_hooks::block_event(&[
+                2,
+                encoded.as_ptr() as usize - verif_base.0,
+                encoded.len(),
+                out.as_ptr() as usize - verif_base.1,
+                out.len(),
+                verif_native.0,
+                verif_native.1,
+            ]);
+        };
+
         // fast path: no conversion needed
         if self.native_color.channels == self.target {
+            #[cfg(dds_verif)]
+            verif_call(encoded, out);
             f(encoded, out);
             return;
         }
@@ -793,6 +815,9 @@ impl ChannelConversionBuffer {
             let out_chunk =
                 &mut out[chunk_start * out_bytes_per_pixel..chunk_end * out_bytes_per_pixel];
             let buffer_chunk = &mut buffer[..chunk_size * buffer_bytes_per_pixel];
+
+            #[cfg(dds_verif)]
+            verif_call(encoded_chunk, out_chunk);
 
             // decode into the temporary buffer
             f(encoded_chunk, buffer_chunk);
